@@ -93,7 +93,8 @@ def gen_plan(rng, tier, run):
             if rng.random() < 0.15:
                 # unusual spellings: too short with prefix, too long, glob metacharacters
                 op["arg"] = rng.choice(["0x%06X" % (e & 0xFFFFFF), "%010X" % e, ("%08X" % e)[:7] + "?", "????????", "*" + ("%08X" % e)[1:],
-                                        "[0-9]" + ("%08X" % e)[5:], ("%08X" % e)[:6] + "\\d"])
+                                        "[0-9]" + ("%08X" % e)[5:], ("%08X" % e)[:6] + "\\d",
+                                        "+" + ("%08X" % e)[1:], ("%08X" % e)[1:5] + "_" + ("%08X" % e)[5:], " " + ("%08X" % e)[1:]])
         elif m == "--bmc-id":
             rs = [t["recipe"] for t in tree if "recipe" in t]
             op["arg"] = str(rng.choice(rs)["bmc_id"] if rs and rng.random() < 0.7 else rng.randrange(1, 10 ** 6))
@@ -273,11 +274,11 @@ def execute(plan):
                 trace.append(m + ":ro")
             elif m == "-d":
                 core = norm_id(op["arg"])
-                try:
+                if re.fullmatch(r"[0-9A-F]+", core):
                     val = int(core, 16)
                     E = "%08X" % val if val < (1 << 32) else core
-                except ValueError:
-                    E = core                    # not a hex number: only a name containing it literally can be meant
+                else:
+                    E = core                    # not plain hex digits: only a name containing it literally can be meant
                 wellformed = len(core) == 8 and E == core
                 if not wellformed:
                     bump("delete_unusual_id")
